@@ -224,6 +224,15 @@ def gen_serve_bounds(rng, blocksizes):
                                         rng.randrange(2**32), pl // unit, payload)
                     for allocs in ([], [0]):
                         yield serve_line(serial, mem16, rng.randrange(2), bs, allocs, wire(serial, raw), verdicts(rng, 1))
+                    # the same frame length with the other checksum-option combinations (whatever the transport usually sends)
+                    for opts in (0, 2, 4, 6):
+                        hl3 = 12 + (2 if opts & 2 else 0) + (2 if opts & 4 else 0)
+                        pl3 = total - hl3
+                        if pl3 < 0:
+                            continue
+                        if mem16 and pl3 % 2: pl3 -= 1
+                        raw3 = raw_frame(2, (1 if mem16 else 0) | opts, 0, rng.randrange(65536), rng.randrange(2**32), pl3 // unit, special_octets(rng, pl3))
+                        yield serve_line(serial, mem16, rng.randrange(2), bs, [], wire(serial, raw3), verdicts(rng, 1))
         # short and empty frames
         for serial in (0, 1):
             for L in range(0, 17):
